@@ -150,6 +150,45 @@ def parse_if_chain(body, lhs, rhs):
     return out
 
 
+def enclosing_struct(text, pos):
+    """name of the innermost `struct NAME {` whose braces contain pos, or None"""
+    best = None
+    for m in re.finditer(r"\bstruct\s+(\w+)[^;{]*\{", text):
+        if m.start() > pos:
+            break
+        end = balanced(text, m.end() - 1, "{", "}")
+        if m.end() <= pos < end:
+            best = (m.group(1), m.start(), end)
+    return best
+
+
+def only_sequential_call_sites(src, name, def_file, def_span):
+    """True iff the functor `name` is constructed at least once, and every place
+    that names it (outside its own definition) lies inside the argument list of a
+    for_each / for_each_n / transform call whose first argument is the literal
+    ExecutionPolicy::Seq.  Returns (ok, description)."""
+    uses, bad = 0, []
+    for f, t in src.items():
+        for m in re.finditer(r"\b%s\b" % re.escape(name), t):
+            if f == def_file and def_span[0] <= m.start() < def_span[1]:
+                continue
+            uses += 1
+            ok = False
+            for c in re.finditer(r"\b(for_each_n|for_each|transform)\s*\(", t[max(0, m.start() - 600):m.start()]):
+                op = max(0, m.start() - 600) + c.end() - 1
+                end = balanced(t, op)
+                if op < m.start() < end:
+                    first = norm_ws(t[op + 1:end]).split(",")[0].strip()
+                    ok = first == "ExecutionPolicy::Seq"
+            if not ok:
+                bad.append("%s:%d" % (f, lineno(t, m.start())))
+    if uses == 0:
+        return False, "functor %s is never invoked by a recognised call" % name
+    if bad:
+        return False, "functor %s has a call site without the literal ExecutionPolicy::Seq: %s" % (name, ", ".join(bad[:3]))
+    return True, "functor %s: all %d call sites pass the literal ExecutionPolicy::Seq" % (name, uses)
+
+
 # ------------------------------------------------------------------ rules
 
 class Site:
@@ -336,7 +375,12 @@ def rules(src):
             elif f == "src/sdf.cpp":
                 s.norm, s.detail = 'Flagged "levelset-cursor-order"', "vertex/triangle cursor order reaches vertPos/triVerts; SortGeometry (stable, Morton codes with ties) does not erase it"
             elif f == "src/properties.cpp":
-                s.norm, s.detail = 'Flagged "curvature-atomic-fp-sum"', "floating-point accumulation in schedule order (addition of doubles is not associative)"
+                st = enclosing_struct(t, m.start())
+                seq_ok, why = only_sequential_call_sites(src, st[0], f, (st[1], st[2])) if st else (False, "AtomicAdd on a double outside a functor")
+                if seq_ok:
+                    s.norm, s.detail = "SequentialPolicy", why
+                else:
+                    s.norm, s.detail = 'Flagged "curvature-atomic-fp-sum"', "floating-point accumulation in schedule order (addition of doubles is not associative); " + why
             else:
                 s.norm, s.detail = "NotNormalised", "AtomicAdd without a rule"
 
